@@ -259,6 +259,8 @@ def _obs_space(fam: str):
         return spaces.Box(-1.0, 1.0, (4, 5), dtype=np.float32)
     if fam == "dict":
         return spaces.Dict({"img": spaces.Box(0.0, 1.0, (3, 16, 16), dtype=np.float32), "vec": spaces.Box(-1.0, 1.0, (4,), dtype=np.float32)})
+    if fam == "dictseq":
+        return spaces.Dict({"seq": spaces.Box(-1.0, 1.0, (4, 5), dtype=np.float32), "vec": spaces.Box(-1.0, 1.0, (4,), dtype=np.float32)})
     if fam == "tuple":
         return spaces.Tuple((spaces.Box(0.0, 1.0, (3, 16, 16), dtype=np.float32), spaces.Box(-1.0, 1.0, (4,), dtype=np.float32)))
     raise ValueError(fam)
@@ -822,7 +824,8 @@ CLAUSE_TAGS = [
 
 def walk_descs(quick: bool) -> List[dict]:
     ds = [dict(what=w) for w in ("mlp", "cnn", "cnn3d", "lstm", "simba", "resnet")]
-    ds += [dict(what="multi", obs="dict", kw=dict(vector_space_mlp=True), tag="vsm"), dict(what="multi", obs="tuple")]
+    ds += [dict(what="multi", obs="dict", kw=dict(vector_space_mlp=True), tag="vsm"), dict(what="multi", obs="tuple"),
+           dict(what="multi", obs="dictseq", kw=dict(recurrent=True), tag="lstm")]
     for cls in ("QNetwork", "RainbowQNetwork", "ContinuousQNetwork", "ValueNetwork", "DeterministicActor", "StochasticActor"):
         for obs in ("vector", "image", "dict", "tuple", "sequence"):
             if obs == "sequence" and cls in ("RainbowQNetwork", "ContinuousQNetwork"):
